@@ -300,6 +300,10 @@ impl TransformExtensionList {
                 current_tkey = Some(parse_tkey(subtag)?);
                 iter.next();
             } else if current_tkey.is_some() {
+                if slen == 1 {
+                    // a singleton ends the tfields: it starts the next extension
+                    break;
+                }
                 if let Some(tval) = parse_tvalue(subtag)? {
                     current_tvalue.push(tval);
                 }
